@@ -3,10 +3,13 @@ P = {
     'design_ref': 'DESIGN.md section 5 (C10), section 6 (K7)',
     'level_text': 'Coq theorems about an executable model of the erc20 keeper (four conversion branches with their post-condition '
                   'balance checks and the Approval monitor, MintingEnabled, self-destructed-contract handling, the '
-                  'transfer-to-module EVM hook, the bank MsgSend wrapper, the IBC receive/ack/timeout callbacks, toggle, params) '
+                  'transfer-to-module EVM hook (per log of the receipt: single transfers and transactions of a token-holding contract '
+                  'that makes a list of transfers, also on other registered pairs), the bank MsgSend wrapper, the IBC receive/ack/timeout callbacks, toggle, params) '
                   'in which the token contract is an oracle (Section variable): honest token (OpenZeppelin ledger): backing '
                   'invariant over all histories (coin-origin: totalSupply <= escrow with escrow - totalSupply = tokens burned by '
-                  'holders; token-origin: coin supply <= balanceOf(module)); ANY token: every message conversion and the wrapper '
+                  'holders; token-origin: coin supply <= balanceOf(module)); hook exactness for one and for several Transfer-to-module '
+                  'logs in one receipt (the contract receives exactly the sum of the amounts it transferred); '
+                  'ANY token: every message conversion and the wrapper '
                   'is exact on the bank side and witnessed by the balance the token reports, or fails without effect; every coin '
                   'creation is witnessed in the semantics without log-driven mint; refutation witnesses for the two findings. '
                   'The model is compared with the real keeper / message router / ApplyTransaction on generated histories on '
@@ -27,18 +30,21 @@ P = {
             'token-origin with: the compiled honest token, ERC20DirectBalanceManipulation, ERC20MaliciousDelayed, a hand-assembled '
             'constant-balance token, the 20-byte fake-Transfer-log token of K7, a hand-assembled "chameleon" ledger token whose '
             'transfer() mode can be switched mid-history: honest / log-only / returns false / extra Approval / credit without debit '
-            '/ topic-less log / no return data / revert, and which can self-destruct) plus a history of 8-19 operations: fund, '
+            '/ topic-less log / no return data / revert, and which can self-destruct) plus a history of 8-20 operations: fund, '
+            'one signed transaction to a script contract that holds tokens and CALLs token.transfer(to, x) several times (same pair '
+            'twice or more, other recipients, tolerated reverting calls, calls to the tokens of the two bystander pairs: two '
+            'registered pairs in one receipt), '
             'MsgConvertCoin, MsgConvertERC20 (message router), signed Ethereum transactions transfer/burn/mint/mode/kill/unknown '
             'through EvmKeeper.ApplyTransaction (PostTxProcessing hook), bank MsgSend (wrapper), MsgTransfer without channel, '
             'ToggleConversion, SetParams, keeper OnRecvPacket / OnAcknowledgementPacket / OnTimeoutPacket after the ICS-20 credit, '
             'keeper-level SendCoins; amounts 0 / 1 / balance / balance+1 / 2^128, 2^255, 2^256-1 / random; after every step: '
-            'totalSupply and balanceOf of 7 actors through real EVM calls, coin supply, escrow, bank balances, registry, params, '
-            'two bystander pairs and the base denomination; non-trivial = at least one conversion (message, hook, wrapper or IBC) '
+            'totalSupply and balanceOf of 8 actors (the script contract included) through real EVM calls, coin supply, escrow, bank balances, registry, params, '
+            'two bystander pairs (exact expected effect when the transaction called their tokens, frame otherwise) and the base denomination; non-trivial = at least one conversion (message, hook, wrapper or IBC) '
             'succeeded; distinct = distinct (kind, op list)',
     'trusted_base': [
         'Coq 8.16.1 kernel incl. vm_compute (no native_compute); std++ 1.8.0 gmap',
         'axioms: none (Print Assumptions: closed under the global context for every theorem of Props/C10.v)',
-        'correspondence harness harness/erc20.go (+ asm.go assembler, common.go, evmexec.go base environment) + vlib/core.py: '
+        'correspondence harness harness/erc20.go (+ asm.go assembler and script contract, common.go, evmexec.go base environment) + vlib/core.py: '
         'generator, hand-assembled token bytecode, canonicaliser (error kinds to a 10-value enum), oracle, shrinker',
         'modelled, not verified: go-ethereum interpreter and the compiled Solidity tokens (their behaviour enters as the oracle '
         'instances honest_token / preset_token / cham_token ..., sampled by the correspondence), bank keeper '
